@@ -864,6 +864,29 @@ pub fn customs_family(tier: Tier) -> Vec<Member> {
             }
         }
     }
+    // long names (the name-length LEB needs two bytes from 128) at three gaps
+    for gap in [0usize, 9, 12] {
+        for nl in [127usize, 128, 129, 300] {
+            for sz in [0usize, 3] {
+                let mut mb = base.clone();
+                let n: String = (0..nl).map(|i| (b'a' + (i % 26) as u8) as char).collect();
+                mb.customs.push((gap, n, payload(sz, 7)));
+                out.push(Member { family: "customs", coords: format!("[{}:longname{}:{}]", gap, nl, sz), wasm: mb.build() });
+            }
+        }
+    }
+    // a padded (non-minimal) name-length LEB: appended by hand at the end of the module
+    for (nm, pad) in [("ab", 2usize), ("ab", 3), ("", 2), ("q", 5)] {
+        let mut w = base.build();
+        let mut body = vec![];
+        uleb_padded(nm.len() as u64, pad, &mut body);
+        body.extend_from_slice(nm.as_bytes());
+        body.extend_from_slice(&[9, 8, 7]);
+        w.push(0);
+        uleb(body.len() as u64, &mut w);
+        w.extend_from_slice(&body);
+        out.push(Member { family: "customs", coords: format!("[padded-name-leb:{}:{}]", nm, pad), wasm: w });
+    }
     // two sections: every pair of gaps x name pair (incl. equal names) x two sizes
     let names2: [&str; 3] = ["a", "b", "a"];
     for g1 in 0..13usize {
@@ -1030,6 +1053,32 @@ pub fn names_payload(shape: usize, mask: u32) -> Vec<u8> {
     name_section(&subs)
 }
 
+/// sparse variant: only every other entity of each kind is named (elements name index 1, data
+/// names index 0, ...), so that a name written against the wrong index space or the wrong index
+/// lands on an *unnamed* entity and is visible
+pub fn build_names_sparse(parity: u32) -> Vec<u8> {
+    let mut mb = names_base(0);
+    let nf = mb.n_imported(0);
+    let nt = mb.n_imported(1);
+    let ng = mb.n_imported(3);
+    let pick = |k: u32, i: u32| (i + k + parity) % 2 == 0;
+    let mut subs: Vec<(u8, Vec<u8>)> = vec![];
+    let fnames = [(nf, "fn_a"), (nf + 1, "fn_b"), (nf + 2, "fn_c")];
+    subs.push((1, name_map(&fnames.iter().filter(|(i, _)| pick(1, *i)).map(|(i, n)| (*i, *n)).collect::<Vec<_>>())));
+    let tn = [(nt, "tab_f"), (nt + 1, "tab_x")];
+    subs.push((5, name_map(&tn.iter().filter(|(i, _)| pick(5, *i)).map(|(i, n)| (*i, *n)).collect::<Vec<_>>())));
+    let mn = [(0u32, "mem_0"), (1, "mem_1")];
+    subs.push((6, name_map(&mn.iter().filter(|(i, _)| pick(6, *i)).map(|(i, n)| (*i, *n)).collect::<Vec<_>>())));
+    let gn = [(ng, "glob_a"), (ng + 1, "glob_b")];
+    subs.push((7, name_map(&gn.iter().filter(|(i, _)| pick(7, *i)).map(|(i, n)| (*i, *n)).collect::<Vec<_>>())));
+    let en = [(0u32, "elem_0"), (1, "elem_1")];
+    subs.push((8, name_map(&en.iter().filter(|(i, _)| pick(8, *i)).map(|(i, n)| (*i, *n)).collect::<Vec<_>>())));
+    let dn = [(0u32, "data_0"), (1, "data_1")];
+    subs.push((9, name_map(&dn.iter().filter(|(i, _)| pick(9, *i)).map(|(i, n)| (*i, *n)).collect::<Vec<_>>())));
+    mb.customs.push((12, "name".into(), name_section(&subs)));
+    mb.build()
+}
+
 pub fn build_names(shape: usize, mask: u32) -> Vec<u8> {
     let mut mb = names_base(shape);
     mb.customs.push((12, "name".into(), names_payload(shape, mask)));
@@ -1039,6 +1088,9 @@ pub fn build_names(shape: usize, mask: u32) -> Vec<u8> {
 pub fn names_family(tier: Tier) -> Vec<Member> {
     let shapes: &[usize] = if tier == Tier::Quick { &[0] } else { &[0, 1, 2] };
     let mut out = vec![];
+    for parity in 0..2u32 {
+        out.push(Member { family: "names", coords: format!("sparse parity={}", parity), wasm: build_names_sparse(parity) });
+    }
     for &shape in shapes {
         for mask in 0..512u32 {
             out.push(Member { family: "names", coords: format!("shape={},mask={:09b}", shape, mask), wasm: build_names(shape, mask) });
@@ -1051,7 +1103,7 @@ pub fn names_family(tier: Tier) -> Vec<Member> {
 // reach(k): every subset of size <= k of 40 reference edges over a fixed entity population
 // ------------------------------------------------------------------------------------------
 
-pub const REACH_EDGES: usize = 40;
+pub const REACH_EDGES: usize = 42;
 
 pub fn reach_edge_name(e: usize) -> &'static str {
     [
@@ -1061,6 +1113,7 @@ pub fn reach_edge_name(e: usize) -> &'static str {
         "F0:memory.init DP", "F1:data.drop DP", "F0:ref.func F2", "F0:block(type MV)", "F0:call_indirect T1 LT", "F1:table.copy LT IT", "F0:memory.copy",
         "F2:memory.grow", "export LT", "export M0", "export G0", "start=F2", "EA.offset=global.get IG", "DA.offset=global.get IG", "EA.items+=F1",
         "declared segment ED[F2]", "active segment EAI on imported table [F1]", "active data DA", "export IF", "export GF",
+        "F1: return; then a block that calls F2 (dead code, must not keep F2)", "F0: unreachable; then an if that touches G0 and IT (dead code)",
     ][e]
 }
 
@@ -1146,6 +1199,14 @@ pub fn build_reach(edges: &[usize]) -> Vec<u8> {
         if let Some((f, code)) = snippet(*e) {
             bodies[f].extend_from_slice(&code);
         }
+    }
+    // dead-code edges go last in their function: a nested construct after an unconditional
+    // transfer; whatever it mentions is NOT reachable (the code is never emitted)
+    if has(40) {
+        bodies[1].extend_from_slice(&cat(&[&[RETURN], &[0x02, 0x40], &call(f2), &[END]]));
+    }
+    if has(41) {
+        bodies[0].extend_from_slice(&cat(&[&[UNREACHABLE], &i32_const(1), &[0x04, 0x40], &global_get(g0), &[DROP], &[0xfc, 0x10], &uleb_v(it as u64), &[DROP], &[END]]));
     }
     for b in bodies.iter_mut() {
         b.push(END);
@@ -1488,4 +1549,37 @@ pub fn ctrl_family(tier: Tier) -> Vec<Member> {
         }
     }
     out
+}
+
+// ------------------------------------------------------------------------------------------
+// minimal: tiny modules with one section kind each, and modules with exactly one kind of GC root
+// ------------------------------------------------------------------------------------------
+
+pub fn minimal_family() -> Vec<Member> {
+    let srcs: Vec<(&str, &str)> = vec![
+        ("empty", "(module)"),
+        ("types-only", "(module (type (func)) (type (func (param i32) (result i64))))"),
+        ("imports-only", r#"(module (import "a" "f" (func)) (import "a" "g" (global i32)) (import "a" "t" (table 1 funcref)) (import "a" "m" (memory 1)))"#),
+        ("memory-only", "(module (memory 1))"),
+        ("data-only", r#"(module (memory 1) (data (i32.const 0) "abc"))"#),
+        ("data-only-exported", r#"(module (memory (export "m") 1) (data (i32.const 0) "abc") (data (i32.const 8) ""))"#),
+        ("imported-memory-data", r#"(module (import "a" "m" (memory 1)) (data (i32.const 4) "xy"))"#),
+        ("import-func-and-data", r#"(module (import "a" "f" (func)) (memory 1) (data (i32.const 0) "q") (export "f" (func 0)))"#),
+        ("globals-only", "(module (global i32 (i32.const 1)) (global (mut f64) (f64.const 2)))"),
+        ("table-elem-imported-funcs", r#"(module (import "a" "f" (func)) (table (export "t") 2 funcref) (elem (i32.const 0) func 0))"#),
+        ("start-only", r#"(module (import "a" "f" (func)) (func $s (call 0)) (start $s))"#),
+        // exactly one kind of root each (no exports)
+        ("root-start", r#"(module (global $g (mut i32) (i32.const 0)) (func $h (global.set $g (i32.const 1))) (func $s (call $h)) (func $dead) (start $s))"#),
+        ("root-active-data", r#"(module (import "a" "g" (global $o i32)) (memory 1) (func $dead) (data (global.get $o) "z"))"#),
+        ("root-active-elem-imported-table", r#"(module (import "env" "tbl" (table 4 funcref)) (import "a" "g" (global $o i32)) (func $a) (func $b (call $a)) (func $dead) (elem (global.get $o) func $b))"#),
+        ("root-declared-elem", r#"(module (func $a) (func $b (call $a)) (func $dead) (elem declare func $b))"#),
+        ("root-active-elem-imported-table-exprs", r#"(module (import "env" "tbl" (table 4 funcref)) (import "a" "gf" (global $gf funcref)) (func $a) (elem (i32.const 1) funcref (ref.func $a) (global.get $gf) (ref.null func)))"#),
+        ("no-roots", r#"(module (memory 1) (table 1 funcref) (global i32 (i32.const 0)) (func $a) (data "p") (elem func $a))"#),
+        ("export-only-global", r#"(module (import "a" "g" (global $o i32)) (global $l (export "l") i32 (global.get $o)) (func $dead))"#),
+        ("funcs-no-data-count", r#"(module (memory 1) (func (export "f") (i32.store (i32.const 0) (i32.const 1))) (data (i32.const 0) "a"))"#),
+        ("memory-init-on-active-segment", r#"(module (memory 1) (func (export "f") (memory.init 0 (i32.const 0) (i32.const 0) (i32.const 0))) (func (export "g")) (data (i32.const 0) "a"))"#),
+    ];
+    srcs.into_iter()
+        .map(|(n, src)| Member { family: "minimal", coords: n.to_string(), wasm: wat::parse_str(src).unwrap_or_else(|e| panic!("minimal module {}: {}", n, e)) })
+        .collect()
 }
